@@ -9,7 +9,7 @@ def sh(cmd, cwd=wt, timeout=1500):
     return p.returncode, p.stdout
 run = open(os.path.join(seed, "RUN.txt")).read()
 m = re.search(r"([\w/]+_test\.go)(?=[ ,&]| in|$)", run.replace("demo_test.go", "", 1) if "demo_test.go" in run else run)
-dests = [d for d in re.findall(r"((?:<[^>]*>/)?[\w/]+_test\.go)", run) if not d.endswith("demo_test.go")]
+dests = [d for d in re.findall(r"((?:<[^>]*>/)?[\w/]+_test\.go)", run) if d != "demo_test.go" and not d.endswith("/demo_test.go")]
 dest = re.sub(r"^<[^>]*>/", "", dests[0])
 cmd = re.search(r"(go test .*)", run).group(1)
 cmd = re.split(r"\s{2,}\(|\s+\(also", cmd)[0].strip()
